@@ -14,6 +14,7 @@ pub mod httpsrv;
 pub mod bx;
 pub mod bw;
 pub mod fz;
+pub mod crash;
 pub mod c01;
 pub mod c02;
 pub mod c03;
